@@ -14,15 +14,19 @@
  *
  * usage:
  *   grow_sched sched <initialPages> <maxPages> <shared> <schedule> <op>...     op = g<delta> | s (memory.size)
- *        -> ret <v0> <v1> ... pages <p> size <s> [blocked <t>...]      (ret of an unfinished op: -)
+ *        -> ret <v0> <v1> ... pages <p> size <s> [blocked <t>...] [held <t>]   (ret of an unfinished op: -;
+ *           held t: operation t has RETURNED but the memory's mutex is still locked by it)
  *   grow_sched seq <initialPages> <maxPages> <shared> <delta>...           (one thread, consecutive grows)
- *        -> ret <v>... pages <p> size <s>
+ *        -> ret <v>... pages <p> size <s>     | ret <v>... blocked-forever   (an operation found the mutex still locked;
+ *           `s` as an argument = memory.size)
  *   grow_sched content <initialPages> <maxPages> <reallocFails> <delta>...   NON-shared memory filled with a pattern;
  *        realloc returns a fresh block with a dirty (0xAA) tail; after every grow:
  *        -> r=<ret>,p=<pages>,o=<old bytes intact 0|1>,z=<number of non-zero bytes in the new pages>,f=<first such offset|->
  *   grow_sched alloc <initialPages> <maxPages> <shared>                   -> size <s> pages <p> max <m>
  *   grow_sched touch <initialPages> <maxPages> <shared> <byteOffset>      store one byte (run under ASan)
  *   grow_sched stress <growers> <iterations> <sizeReaders>               free-running (run under TSan)
+ *   grow_sched after <initialPages> <maxPages> <delta>                   free-running (-DGROW_FREE_RUNNING): grow(delta), then
+ *        ANOTHER thread does memory.size and grow(1) -> first <v> size <s> grow <g> pages <p>   (hangs if the mutex was leaked)
  */
 #include <stdio.h>
 #include <stdlib.h>
@@ -78,9 +82,19 @@ static void yield_(void) {
     sem_wait(&turn[me]);
 }
 
+static int seqHeld;            /* `seq` mode (one thread): is the memory's mutex still held from an earlier operation? */
+
 static int sched_mutex_lock(pthread_mutex_t* m) {
     (void)m;
-    if (!scheduling) return 0;
+    if (!scheduling) {
+        if (seqHeld) {         /* a real pthread_mutex_lock would block forever here */
+            printf(" blocked-forever\n");
+            fflush(stdout);
+            _exit(0);
+        }
+        seqHeld = 1;
+        return 0;
+    }
     yield_();
     while (owner != -1) {      /* scheduled although the mutex is taken: stays blocked */
         blockedFlag[me] = 1;
@@ -92,7 +106,7 @@ static int sched_mutex_lock(pthread_mutex_t* m) {
 
 static int sched_mutex_unlock(pthread_mutex_t* m) {
     (void)m;
-    if (!scheduling) return 0;
+    if (!scheduling) { seqHeld = 0; return 0; }
     owner = -1;
     yield_();
     return 0;
@@ -144,6 +158,7 @@ static int cmd_sched(int argc, char** argv) {
     }
     printf(" pages %u size %u", mem->pages, mem->size);
     for (i = 0; i < n; i++) if (blockedFlag[i]) printf(" blocked %d", i);
+    if (owner != -1 && finished[owner]) printf(" held %d", owner);     /* an operation returned with the mutex locked */
     printf("\n");
     fflush(stdout);
     _exit(0);      /* unfinished threads stay parked */
@@ -156,7 +171,8 @@ static int cmd_seq(int argc, char** argv) {
     printf("ret");
     for (i = 5; i < argc; i++) {
         g_blockSize = (size_t)mem->pages * 65536u;
-        printf(" %u", wasmMemoryGrow(mem, (U32)strtoul(argv[i], NULL, 0)));
+        if (argv[i][0] == 's') { U32 v = wasmMemorySize(mem); printf(" %u", v); continue; }
+        { U32 v = wasmMemoryGrow(mem, (U32)strtoul(argv[i], NULL, 0)); printf(" %u", v); }
     }
     printf(" pages %u size %u\n", mem->pages, mem->size);
     return 0;
@@ -212,6 +228,20 @@ static void* stressGrow(void* a) { int i; U32 acc = 0; for (i = 0; i < stressIte
 static __attribute__((noinline)) U32 memorySize(wasmMemory* m) { return wasmMemorySize(m); }   /* `si = wasmMemorySize(m);` as emitted by c.c */
 static void* stressSize(void* a) { int i; U32 acc = 0; for (i = 0; i < stressIter; i++) acc += memorySize(stressMem); *(U32*)a = acc; return NULL; }
 
+/* free-running, REAL pthread mutex: one operation with the given delta, then a second thread does memory.size and
+ * grow(1).  If the first operation left the mutex locked the second thread blocks forever (caller: watchdog). */
+static void* afterThread(void* a) { U32* r = (U32*)a; r[0] = wasmMemorySize(stressMem); r[1] = wasmMemoryGrow(stressMem, 1); return NULL; }
+static int cmd_after(char** argv) {
+    pthread_t th; U32 r[2]; U32 first;
+    stressMem = wasmMemoryAllocate((U32)strtoul(argv[2], NULL, 0), (U32)strtoul(argv[3], NULL, 0), true);
+    first = wasmMemoryGrow(stressMem, (U32)strtoul(argv[4], NULL, 0));
+    printf("first %u", first); fflush(stdout);
+    pthread_create(&th, NULL, afterThread, r);
+    pthread_join(th, NULL);
+    printf(" size %u grow %u pages %u\n", r[0], r[1], stressMem->pages);
+    return 0;
+}
+
 static int cmd_stress(char** argv) {
     int n = atoi(argv[2]), i, withSize = atoi(argv[4]);
     pthread_t th[2 * MAXT];
@@ -231,6 +261,7 @@ int main(int argc, char** argv) {
     if (argc == 5 && !strcmp(argv[1], "alloc")) return cmd_alloc(argv);
     if (argc == 6 && !strcmp(argv[1], "touch")) return cmd_touch(argv);
     if (argc == 5 && !strcmp(argv[1], "stress")) return cmd_stress(argv);
+    if (argc == 5 && !strcmp(argv[1], "after")) return cmd_after(argv);
     fprintf(stderr, "usage: see grow_sched.c\n");
     return 2;
 }
